@@ -91,7 +91,9 @@ type Devmod struct {
 	MudURL  string `devmod:"mudurl"`
 }
 
-// Write the devmod messages.
+// Write the devmod messages. The MTU is the number of bytes available to the
+// KVs of one message, i.e. the size given to (*ChunkReader).ReadChunk for the
+// first KV of a message.
 func (d *Devmod) Write(ctx context.Context, deviceModules map[string]DeviceModule, mtu uint16, w *UnchunkWriter) {
 	defer func() { _ = w.Close() }()
 
@@ -208,14 +210,18 @@ func (d *Devmod) writeModuleMessages(modules []string, mtu uint16, w *UnchunkWri
 		chunk.Len++
 		chunk.Modules = append(chunk.Modules, modules[0])
 
-		// Brute force computing the encoded size by actually encoding it
-		var size sizewriter
-		if err := cbor.NewEncoder(&size).Encode([][]any{{key, chunk}}); err != nil {
+		// Brute force computing the encoded size by actually encoding it. The
+		// chunk is sent as the byte string value of a KV, so the size of that
+		// KV is what must fit. Measuring the chunk inline instead comes out
+		// too small, and a chunk which does not fit is cut in two by
+		// ReadChunk, neither half of which the owner can parse.
+		val, err := cbor.Marshal(chunk)
+		if err != nil {
 			return fmt.Errorf("error calculating size of devmod:modules ServiceInfo: %w", err)
 		}
 
 		// Continue if MTU is not exceeded
-		if int(size) <= int(mtu) {
+		if (&KV{Key: key, Val: val}).Size() <= mtu {
 			modules = modules[1:]
 			continue
 		}
@@ -236,10 +242,6 @@ func (d *Devmod) writeModuleMessages(modules []string, mtu uint16, w *UnchunkWri
 
 	return writeChunk(chunk)
 }
-
-type sizewriter int
-
-func (w *sizewriter) Write(p []byte) (int, error) { *w += sizewriter(len(p)); return len(p), nil }
 
 // DevmodModulesChunk is the CBOR array value used in devmod:modules messages.
 // Instead of representing it as an []any, it provides a more typed interface,
